@@ -9,7 +9,10 @@ one() {
   start=$(date +%s)
   out=$(./check $p $tier 2>&1); rc=$?
   echo "$p $tier exit=$rc $(( $(date +%s) - start ))s $(echo "$out" | grep -c '^VIOLATION') violations; $(echo "$out" | grep '^KNOWN-FINDING' | cut -c1-60)"
-  if [ $rc -ne 0 ]; then echo "$out" | tail -30; fi
+  if [ $rc -ne 0 ]; then
+    echo "$out" | grep -E "^check:|^VIOLATION|\[rapid\] (failed|panic|flaky)|WEDGE|DATA RACE|^panic:|^fatal error:|--- FAIL" | cut -c1-700 | head -60
+    echo "$out" | tail -15
+  fi
 }
 export -f one
 if [ "${VERIF_PAR:-1}" -gt 1 ]; then
